@@ -30,7 +30,10 @@ def case_strategy(draw, max_cells=40):
     rest = draw(st.lists(st.tuples(st.sampled_from(KINDS), st.integers(0, 10 ** 6), st.integers(0, 10 ** 6)), min_size=5, max_size=40))
     return {"V": t["V"], "C": t["C"], "tags": t["tags"], "sort": draw(st.booleans()),
             "queries": [[first, draw(st.integers(0, 10 ** 6)), draw(st.integers(0, 10 ** 6))]] + [list(q) for q in rest],
-            "sweep_seed": draw(st.integers(0, 1000)), "form": draw(st.sampled_from(["list", "tuple"]))}
+            "sweep_seed": draw(st.integers(0, 1000)), "form": draw(st.sampled_from(["list", "tuple"])),
+            # how the mesh object under test is produced: directly, or written to a file and loaded back ("however a mesh is built")
+            "via": draw(st.sampled_from([None, None, None, "tet", "mesh", "geogram_ascii"])),
+            "prequery_before_save": draw(st.booleans())}
 
 
 def rot_ok_cells(seq, ref, ek, closed):
@@ -264,9 +267,26 @@ def info_border_edges(ref):
 
 
 def build(case):
-    import mouette as M
+    import mouette as M, os, tempfile, shutil
     M.config.sort_neighborhoods = bool(case["sort"])
-    return volume_from(case["V"], case["C"], case.get("form", "list"))
+    m = volume_from(case["V"], case["C"], case.get("form", "list"))
+    via = case.get("via")
+    if via:
+        if case.get("prequery_before_save"):
+            m.connectivity.cell_to_cell(0)     # leaves the cell adjacency attribute on the mesh that gets saved
+        d = tempfile.mkdtemp(prefix="c03_")
+        try:
+            p = os.path.join(d, "m." + via)
+            M.mesh.save(m, p)
+            m2 = M.mesh.load(p)
+        finally:
+            shutil.rmtree(d, ignore_errors=True)
+        # whether the file round trip preserves the cells is C04's business: only a faithful reload is used here
+        same = (type(m2).__name__ == "VolumeMesh" and [tuple(ints(c)) for c in m2.cells] == [tuple(c) for c in case["C"]]
+                and len(m2.vertices) == len(case["V"]))
+        if same:
+            return m2
+    return m
 
 
 def containers(m, ref, ctx):
@@ -312,7 +332,7 @@ def fn(case, ctx):
     ref = TetRef(len(V), Cl)
     for t in case.get("tags", []):
         ctx.label(t)
-    ctx.label("sort=" + str(case["sort"]))
+    ctx.label("sort=" + str(case["sort"]), "via=" + str(case.get("via")))
     ctx.label("first=" + case["queries"][0][0])
     ctx.nontrivial(len(Cl) >= 2 and any(len(cs) == 2 for cs in ref.f2c.values()))
 
